@@ -29,7 +29,11 @@ This module ties the model to the real server over TCP:
             commands) the same as after the directly issued commands.
   refused   every name of `Lua.refusedNames` (except SHUTDOWN / DEBUG, never sent) inside call and pcall:
             error, nothing changed, connection state untouched; names unknown to the executor likewise.
-  sandbox   `os`, `io`, `loadfile`, … must be nil / raise; SAVE-like stubs must not touch the disk.
+  sandbox   `os`, `io`, `loadfile`, … must be nil / raise; SAVE-like stubs must not touch the disk; no way to install a __gc finalizer
+            (newproxy: finalizers run with the hooks off, outside the time limit) and no precompiled chunks (string.dump / loadstring of
+            bytecode: Lua 5.1 runs bytecode unchecked) - while a door is open only a harmless witness is sent, once it is closed the
+            wedging / crashing scripts themselves must be refused.
+  ttl-parity  TTL inside a script == TTL directly at the same instant (right after EXPIRE / PEXPIRE inside one script / one MULTI block).
   atomic    writers running a two-INCR script against readers doing MGET: the two counters never differ.
 
   reply-depth  return values that are cyclic (self, mutual, via a metatable) or nested around the limit / 5000 deep / wide and deep, by EVAL,
@@ -69,7 +73,7 @@ CONV_TAGS = ["nilBulkIsNil", "statusIsString", "lossyStrings", "pcallErrIsNil", 
 UNORDERED = {"SMEMBERS", "HKEYS", "HVALS", "KEYS", "SUNION", "SINTER", "SDIFF"}
 PAIRS = {"HGETALL"}
 SCANS = {"SCAN": False, "SSCAN": False, "HSCAN": True, "ZSCAN": True}
-WINDOW = {"TTL": 2, "PTTL": 1500}
+WINDOW = {"TTL": 1, "PTTL": 1500}
 NEVER = {"SPOP", "SRANDMEMBER", "RANDOMKEY", "SHUTDOWN", "DEBUG", "SLEEP", "REPLICAOF", "SLAVEOF", "SYNC", "PSYNC",
          "TIME", "LASTSAVE", "INFO", "MONITOR"}
 
@@ -2007,7 +2011,7 @@ SANDBOX_EXPR = ["os", "io", "loadfile", "dofile", "require", "package", "debug",
 def layer_sandbox(ck):
     rep = ck.rep
     removed = ck.facts["removed_eval"] or []
-    srv = Server("c12x")
+    srv = Server("c12x", preexec_fn=cap_address_space)
     c = srv.client()
     try:
         for e in SANDBOX_EXPR + [x for x in removed if x not in SANDBOX_EXPR]:
@@ -2031,6 +2035,53 @@ def layer_sandbox(ck):
         # a script can still compile strings: loadstring is present (noted, not a file-system or process access)
         got = c.cmd("EVAL", "return type(loadstring)", "0")
         rep.extra["loadstring_available"] = got == ("b", b"function")
+        # ---- finalizers: Lua 5.1 runs __gc with the debug hooks off, so script code in a finalizer is outside the time limit (and, at
+        #      state close, outside the script).  `newproxy` is the only way a script can make an object with a finalizer.
+        has_newproxy = c.cmd("EVAL", "return type(newproxy)", "0") == ("b", b"function")
+        rep.extra["newproxy_available"] = has_newproxy
+        rep.evaluations += 1
+        if has_newproxy:
+            # a FINITE finalizer as the witness (an endless one wedges the server for ever and is never sent while newproxy exists):
+            # it runs a redis.call AFTER the script has returned
+            src = "getmetatable(newproxy(true)).__gc = function() redis.call('SET','gc-ran','1') end return redis.call('EXISTS','gc-ran')"
+            got = c.cmd("EVAL", src, "0")
+            ran = c.cmd("GET", "gc-ran")
+            det = {"layer": "sandbox", "script": src, "reply": str(got), "GET gc-ran afterwards": str(ran),
+                   "never_sent": "getmetatable(newproxy(true)).__gc = function() while true do end end return 1"}
+            rep.nontrivial(("sandbox-finalizer", str(ran)))
+            if ran == ("b", b"1") or "newproxy" not in removed:
+                if not ck.note_known("sandbox:finalizer-outside-script", det):
+                    ck.fail("sandbox", "a script can install a __gc finalizer (newproxy): its code runs with the debug hooks off - outside the script time limit - "
+                            "and after the script has returned; an endless one wedges the command thread for ever", det)
+        else:
+            got = c.cmd("EVAL", "getmetatable(newproxy(true)).__gc = function() while true do end end return 1", "0", timeout=8.0)
+            rep.evaluations += 1
+            if got[0] != "e" or c.cmd("PING") != ("s", b"PONG"):
+                ck.fail("sandbox", "the finalizer script was not refused", {"reply": str(got)})
+        # ---- precompiled chunks: Lua 5.1 executes bytecode without validation (a patched chunk crashes the VM)
+        probes = {"dump": c.cmd("EVAL", "return type(string.dump)", "0"),
+                  "roundtrip": c.cmd("EVAL", "local ok, r = pcall(function() return loadstring(string.dump(function() return 42 end))() end) return tostring(r)", "0"),
+                  "signature": c.cmd("EVAL", "local f, e = loadstring('\\27Lua\\81\\0\\1\\4\\8\\4\\8\\0') return type(f)", "0"),
+                  "text": c.cmd("EVAL", "return loadstring('return 1+1')()", "0")}
+        rep.evaluations += 4
+        rep.extra["bytecode_probes"] = {k: str(v)[:60] for k, v in probes.items()}
+        det = {"layer": "sandbox", "probes": {k: str(v)[:120] for k, v in probes.items()},
+               "scripts": {"roundtrip": "return loadstring(string.dump(function() return 42 end))()"}}
+        open_door = probes["roundtrip"] == ("b", b"42") or probes["dump"] == ("b", b"function")
+        rep.nontrivial(("sandbox-bytecode", open_door))
+        if open_door:
+            # the crashing chunk (hunt/C06/d4) is not sent while the door is open: the witness is the harmless round trip
+            if not ck.note_known("sandbox:loadstring-bytecode", det):
+                ck.fail("sandbox", "loadstring accepts precompiled chunks and string.dump makes them: Lua 5.1 runs bytecode without validation "
+                        "(a chunk patched by the script kills the server with SIGSEGV)", det)
+        else:
+            crash = ("local function victim() local zzzzzz; zzzzzz() end\nlocal d = string.dump(victim)\n"
+                     "local a, b = string.find(d, '\\7\\0\\0\\0\\0\\0\\0\\0zzzzzz\\0', 1, true)\n"
+                     "local f = loadstring(d:sub(1, a - 1) .. '\\0\\0\\0\\0\\0\\0\\0\\0' .. d:sub(b + 1))\npcall(f)")
+            got = c.cmd("EVAL", crash, "0", timeout=8.0)
+            rep.evaluations += 1
+            if got[0] != "e" or probes["signature"] != ("b", b"nil") or probes["text"] != ("i", 2) or c.cmd("PING") != ("s", b"PONG"):
+                ck.fail("sandbox", "precompiled chunks are not refused cleanly (or loadstring of source text no longer works)", dict(det, crash_script_reply=str(got)))
     finally:
         c.close()
         srv.stop()
@@ -2399,6 +2450,46 @@ def layer_reply_depth(ck):
         srv.stop()
 
 
+def layer_ttl_parity(ck):
+    """TTL inside a script == TTL directly, measured at the same instant: right after EXPIRE inside one script / one MULTI block
+    (the twin layer compares TTL through a window of a second, which hides a rounding difference)"""
+    rep = ck.rep
+    srv = Server("c12e")
+    c = srv.client()
+    try:
+        cases = [("EXPIRE", n) for n in (1, 2, 3, 10, 100, 86400)] + [("PEXPIRE", n) for n in (1, 999, 1000, 1001, 1500, 10001)]
+        for how, n in cases:
+            c.cmd("FLUSHALL")
+            c.cmd("MULTI")
+            for x in (["SET", "k", "v"], [how, "k", str(n)], ["TTL", "k"], ["PTTL", "k"]):
+                c.cmd(*x)
+            d = c.cmd("EXEC")
+            c.cmd("FLUSHALL")
+            src = "redis.call('SET',KEYS[1],'v') redis.call(ARGV[1],KEYS[1],ARGV[2]) return {redis.call('TTL',KEYS[1]), redis.call('PTTL',KEYS[1])}"
+            sc = c.cmd("EVAL", src, "1", "k", how, str(n))
+            rep.evaluations += 2
+            rep.count("ttl-parity.%s" % how)
+            ttl_d, ttl_s = (d[1][2] if d[0] == "a" and len(d[1]) == 4 else None), (sc[1][0] if sc[0] == "a" and len(sc[1]) == 2 else None)
+            rep.nontrivial(("ttl-parity", how, n, str(ttl_d), str(ttl_s)))
+            det = {"layer": "ttl-parity", "direct": "MULTI; SET k v; %s k %d; TTL k; PTTL k; EXEC -> %s" % (how, n, show(norm(d))), "script": src,
+                   "keys": ["k"], "argv": [how, str(n)], "script_reply": show(norm(sc))}
+            if ttl_d is None or ttl_s is None or ttl_d[0] != "i" or ttl_s[0] != "i":
+                ck.fail("ttl-parity", "unexpected replies", det)
+            elif ttl_d != ttl_s and not ck.note_known("parity:ttl-rounding", det):
+                ck.fail("ttl-parity", "TTL inside a script (%d) differs from the directly issued TTL (%d) at the same instant, right after %s k %d"
+                        % (ttl_s[1], ttl_d[1], how, n), det)
+        # no time to live / no key
+        c.cmd("FLUSHALL")
+        c.cmd("SET", "p", "v")
+        sc = c.cmd("EVAL", "return {redis.call('TTL','p'), redis.call('TTL','nokey'), redis.call('PTTL','p'), redis.call('PTTL','nokey')}", "0")
+        rep.evaluations += 1
+        if sc != ("a", [("i", -1), ("i", -2), ("i", -1), ("i", -2)]):
+            ck.fail("ttl-parity", "TTL / PTTL of a key without time to live or of a missing key inside a script", {"layer": "ttl-parity", "script_reply": show(norm(sc))})
+    finally:
+        c.close()
+        srv.stop()
+
+
 def layer_crash_witness(ck):
     """the one known way to take the server down from a script (a script-only command): replayed on a throw-away server"""
     f = ck.findings.get("crash:bitcount-empty")
@@ -2422,6 +2513,34 @@ def layer_crash_witness(ck):
         ck.rep.nontrivial(("crash-witness", died))
     finally:
         srv.stop()
+    # two more script-only commands that took the server down (hunt/C06/extras): each on its own throw-away capped server
+    for match, what, setup, src, keys in (
+            ("crash:bitcount-range", "redis.call('BITCOUNT', k, 4, 1) (a start after the end) panics on a slice", [["SET", "k", "hello"]],
+             "return redis.call('BITCOUNT', KEYS[1], 4, 1)", ["k"]),
+            ("crash:setbit-offset", "redis.call('SETBIT', k, <offset near 2^63>, 0) asks for 2^60 bytes and aborts the process", [],
+             "return redis.call('SETBIT', KEYS[1], '9223372036854775806', 0)", ["k"])):
+        srv = Server("c12c", preexec_fn=cap_address_space)
+        try:
+            c = srv.client()
+            for x in setup:
+                c.cmd(*x)
+            try:
+                got = c.cmd("EVAL", src, str(len(keys)), *keys, timeout=5.0)
+                died = False
+            except (Closed, TimeoutError, ProtocolError, OSError):
+                time.sleep(0.3)
+                got, died = None, True
+            ck.rep.evaluations += 1
+            det = {"layer": "crash", "setup": [" ".join(x) for x in setup], "script": src, "keys": keys, "reply": str(got), "server_alive": srv.alive(),
+                   "server_log": srv.log_tail(400)}
+            ck.rep.nontrivial((match, died))
+            if died or not srv.alive():
+                if not ck.note_known(match, det):
+                    ck.fail("crash", what + " - the server dies", det)
+            elif got[0] not in ("i", "e"):
+                ck.fail("crash", "unexpected reply to " + src, det)
+        finally:
+            srv.stop()
 
 
 # ----------------------------------------------------------------------------------------------------
@@ -2492,6 +2611,7 @@ def main(tier, seed):
         layer_refused(ck)
         layer_sandbox(ck)
         layer_atomic(ck, 3, 150 if q else 1500)
+        layer_ttl_parity(ck)
         layer_crash_witness(ck)
         layer_reply_depth(ck)
         layer_time_limit(ck)
